@@ -89,6 +89,7 @@ let run (id : string) (hdr : string list) (lines : string list list) (out : stri
         let o2 = ev (EBegin (ni c, (m = "ro"), nd d)) in
         emit (o0 @ o1 @ o2); state_line (); go r
       | ["get"; c; k] :: r -> do_ev (EGet (ni c, ni k)); go r
+      | ["scan"; c] :: r -> do_ev (EGet (ni c, n_of_int 99)); go r   (* by handle, no rows: activity like a get *)
       | ["put"; c; k; v] :: r -> do_ev (EPut (ni c, ni k, ni v)); go r
       | ["del"; c; k] :: r -> do_ev (EDel (ni c, ni k)); go r
       | ["commit"; c] :: r -> do_ev (ECommit (ni c)); go r
